@@ -174,7 +174,7 @@ class Ctx:
 # ---------------------------------------------------------------------------
 # Hypothesis driver
 # ---------------------------------------------------------------------------
-def hyp_search(body, seed, max_examples, stats, shrink_seconds=45.0, stateful_steps=None):
+def hyp_search(body, seed, max_examples, stats, shrink_seconds=20.0, stateful_steps=None):
     """Run body(chooser) max_examples times under Hypothesis with the given
     seed.  body raises CheckFailure on violation.  The smallest failing case
     seen (by length of its rendering) is appended to stats.failures."""
